@@ -269,7 +269,9 @@ pub fn search_c20(r: &mut Rng, iters: usize) -> bool {
         }
     }
     let names = ["foo-1.0", "foo-bar-1.0", "foo-1.0nb2", "py39-foo-bar-2.1nb10", "nodash", "foo-1.0-rc1", "mutt-2.2.13-20240101", "a-b-c-d", "x11-links-2.8",
-                 "-1.0", "foo-", "9base-6", "é-1", "p5-Foo-Bar-0.01", "libfoo-2-3"];
+                 "-1.0", "foo-", "9base-6", "é-1", "p5-Foo-Bar-0.01", "libfoo-2-3",
+                 "pkg-config-0.29.2nb1", "pkgdb.tools-1.0", "pkg_install-20240101", "pkgin-23.8.1", "pkg-vulnerabilities", "font-adobe-100dpi-1.0.3nb1", "libstdc++-6-compat-1.0",
+                 ".hidden-1", "+COMMENT", "a b-1", "x-1.0~rc1", "UPPER-2", "pkgdb.byfile.db"];
     let rounds = (iters / 400).max(8);
     for round in 0..rounds {
         let mut spec = String::new();
@@ -904,5 +906,41 @@ pub fn dump_digests(seed: u64, count: usize) {
         println!("DIGEST {} file {} {}", algo, hex(&data), real_digest("file", algo, &data, &sched));
         println!("DIGEST {} patch {} {}", algo, hex(&data), real_digest("patch", algo, &data, &sched));
         n += 1;
+    }
+}
+
+// ---------------- C07: call histories through the setter / pusher API
+/// set variable `name` to `vals` through the public API; `mode` chooses between equivalent call sequences
+pub fn api_apply(s: &mut pkgsrc::summary::Summary, name: &str, vals: &[String], mode: u8) {
+    let junk = "junk-value".to_string();
+    let one = |s: &mut pkgsrc::summary::Summary, f: &dyn Fn(&mut pkgsrc::summary::Summary, &str)| {
+        if mode % 3 == 1 { f(s, &junk); }                  // overwritten by the final value
+        f(s, &vals[0]);
+        if mode % 3 == 2 { f(s, &vals[0]); }               // repeated
+    };
+    match name {
+        "BUILD_DATE" => one(s, &|s, v| s.set_build_date(v)), "CATEGORIES" => one(s, &|s, v| s.set_categories(v)), "COMMENT" => one(s, &|s, v| s.set_comment(v)),
+        "FILE_CKSUM" => one(s, &|s, v| s.set_file_cksum(v)), "FILE_NAME" => one(s, &|s, v| s.set_file_name(v)), "HOMEPAGE" => one(s, &|s, v| s.set_homepage(v)),
+        "LICENSE" => one(s, &|s, v| s.set_license(v)), "MACHINE_ARCH" => one(s, &|s, v| s.set_machine_arch(v)), "OPSYS" => one(s, &|s, v| s.set_opsys(v)),
+        "OS_VERSION" => one(s, &|s, v| s.set_os_version(v)), "PKG_OPTIONS" => one(s, &|s, v| s.set_pkg_options(v)), "PKGNAME" => one(s, &|s, v| s.set_pkgname(v)),
+        "PKGPATH" => one(s, &|s, v| s.set_pkgpath(v)), "PKGTOOLS_VERSION" => one(s, &|s, v| s.set_pkgtools_version(v)), "PREV_PKGPATH" => one(s, &|s, v| s.set_prev_pkgpath(v)),
+        "FILE_SIZE" => { if mode % 2 == 1 { s.set_file_size(-7); } s.set_file_size(vals[0].parse().unwrap()) }
+        "SIZE_PKG" => { if mode % 2 == 1 { s.set_size_pkg(i64::MIN); } s.set_size_pkg(vals[0].parse().unwrap()) }
+        _ => {
+            let set = |s: &mut pkgsrc::summary::Summary, v: &[String]| match name {
+                "CONFLICTS" => s.set_conflicts(v), "DEPENDS" => s.set_depends(v), "DESCRIPTION" => s.set_description(v), "PROVIDES" => s.set_provides(v),
+                "REQUIRES" => s.set_requires(v), _ => s.set_supersedes(v),
+            };
+            let push = |s: &mut pkgsrc::summary::Summary, v: &str| match name {
+                "CONFLICTS" => s.push_conflicts(v), "DEPENDS" => s.push_depends(v), "DESCRIPTION" => s.push_description(v), "PROVIDES" => s.push_provides(v),
+                "REQUIRES" => s.push_requires(v), _ => s.push_supersedes(v),
+            };
+            match mode % 4 {
+                0 => set(s, vals),
+                1 => { for v in vals { push(s, v); } }                                  // only valid when nothing was set before
+                2 => { set(s, &[junk.clone()]); set(s, &vals[..1]); for v in &vals[1..] { push(s, v); } }
+                _ => { set(s, &[]); for v in vals { push(s, v); } }
+            }
+        }
     }
 }
